@@ -286,3 +286,151 @@ impl Prop for C19 {
     fn assumptions(&self) -> Vec<String> { vec!["constraints are premise-only rules; a set violates a constraint iff the premise join is non-empty (as violates_constraints does)".into(), "run-to-run variation is modelled as variation of std's per-thread hash keys, which the simulator owns through the getrandom symbol".into()] }
     fn real_vs_stub(&self) -> serde_json::Value { serde_json::json!({"real": ["Reasoner::{query_with_repairs, compute_repairs, violates_constraints, infer_new_facts_semi_naive_with_repairs}"], "simulated": ["std RandomState keys per execution (getrandom interposer)"], "not_run": []}) }
 }
+
+// =====================================================================================================================
+// C12 — incremental cross-window reasoning equals recomputation from scratch (DESIGN 6.10).
+// Simulated windows + evaluation clock drive `incremental_sds_plus` step by step.
+use datalog::cross_window_sds::{Sds, WindowData, WindowedTriple};
+use datalog::reasoning::materialisation::cross_window_incremental::{incremental_sds_plus, SdsWithExpiry};
+use datalog::reasoning::materialisation::cross_window_naive::naive_sds_plus;
+use std::collections::{BTreeMap, HashMap};
+use std::sync::{Arc, RwLock};
+
+#[derive(Serialize, Deserialize, Clone, Debug)]
+pub struct WinDecl { pub iri: String, pub alpha: u64 }
+#[derive(Serialize, Deserialize, Clone, Debug)]
+pub struct Arrival { pub win: usize, pub s: String, pub p: String, pub o: String, pub back: u64 }
+#[derive(Serialize, Deserialize, Clone, Debug)]
+pub struct SdsStep { pub dt: u64, pub arrivals: Vec<Arrival> }
+#[derive(Serialize, Deserialize, Clone, Debug)]
+pub struct SdsCase { pub hash_seed: u64, pub windows: Vec<WinDecl>, pub static_iri: String, pub statics: Vec<Fact>, pub outs: Vec<String>, pub rules: Vec<dm::Rule>, pub steps: Vec<SdsStep>, pub pool: usize, pub rayon_seed: u64 }
+pub struct C12;
+
+fn longest_prefix<'a>(pred: &str, iris: &'a [String]) -> Option<&'a String> { iris.iter().filter(|i| pred.starts_with(i.as_str())).max_by_key(|i| i.len()) }
+
+impl Prop for C12 {
+    type Case = SdsCase;
+    fn id(&self) -> &'static str { "C12" }
+    fn budget(&self, tier: Tier) -> Budget { match tier { Tier::Quick => Budget { runs: 20_000, wall_s: 60, recheck: 30 }, Tier::Thorough => Budget { runs: 600_000, wall_s: 1500, recheck: 100 } } }
+    fn hash_seed(&self, c: &SdsCase) -> u64 { c.hash_seed }
+    fn gen(&self, seed: u64, _i: u64, _tier: Tier) -> SdsCase {
+        let mut r = Rng::sub(seed, "workload"); let mut cfg = Rng::sub(seed, "swarm");
+        let nested = cfg.chance(1, 6);
+        let nw = 2 + r.usize(2);
+        let mut windows: Vec<WinDecl> = (0..nw).map(|i| WinDecl { iri: format!("http://w{}/", i), alpha: 1 + r.below(if cfg.chance(1, 3) { 20 } else { 8 }) }).collect();
+        let outs: Vec<String> = if nested { vec!["http://w0/o/".to_string()] } else if r.chance(1, 4) { vec!["http://out/".into(), "http://out2/".into()] } else { vec!["http://out/".into()] };
+        if cfg.chance(1, 8) { windows[1].alpha = windows[0].alpha; }
+        let static_iri = "urn:kolibrie:static:".to_string();
+        let nn = 3 + r.usize(3); let node = |r: &mut Rng| format!("n{}", r.usize(nn));
+        let statics: Vec<Fact> = if cfg.chance(1, 2) { (0..r.usize(4)).map(|_| (node(&mut r), "s".to_string(), node(&mut r))).collect() } else { vec![] };
+        let locals = ["p", "q"];
+        // rules over window-annotated predicates: chains across windows, window x static joins, recursion inside the output component
+        let src_pred = |r: &mut Rng, outs: &[String], windows: &[WinDecl], allow_out: bool| -> String {
+            match r.below(if allow_out { 5 } else { 4 }) { 0 | 1 | 2 => format!("{}{}", windows[r.usize(windows.len())].iri, r.pick(&locals)), 3 if !statics.is_empty() => format!("{}s", static_iri), 3 => format!("{}{}", windows[0].iri, "p"), _ => format!("{}{}", r.pick(outs), r.pick(&["r", "t"])) } };
+        let mut rules = vec![];
+        for _ in 0..(1 + r.usize(4)) {
+            let k = 1 + r.usize(3);
+            let vars = ["?x", "?y", "?z", "?w"];
+            let mut prem: Vec<Pat> = vec![];
+            for i in 0..k { let s = if r.chance(1, 8) { node(&mut r) } else { vars[i].to_string() }; let o = if r.chance(1, 8) { node(&mut r) } else { vars[i + 1].to_string() }; prem.push((s, src_pred(&mut r, &outs, &windows, true), o)); }
+            let used: Vec<String> = prem.iter().flat_map(|p| [p.0.clone(), p.2.clone()]).filter(|t| dm::is_var(t)).collect();
+            if used.is_empty() { continue; }
+            let conc = vec![(r.pick(&used).clone(), format!("{}{}", r.pick(&outs), r.pick(&["r", "t"])), r.pick(&used).clone())];
+            rules.push(dm::Rule { prem, neg: vec![], conc, filt: vec![] });
+        }
+        if rules.is_empty() { rules.push(dm::Rule { prem: vec![("?x".into(), format!("{}p", windows[0].iri), "?y".into())], neg: vec![], conc: vec![("?x".into(), format!("{}r", outs[0]), "?y".into())], filt: vec![] }); }
+        let mut steps = vec![];
+        let gap_mode = cfg.below(4);
+        for _ in 0..(3 + r.usize(10)) {
+            let dt = match gap_mode { 0 => 1, 1 => 1 + r.below(3), 2 => if r.chance(1, 4) { 10 + r.below(30) } else { 1 + r.below(4) }, _ => 1 + r.below(15) };
+            let mut arrivals = vec![];
+            for _ in 0..r.usize(5) { let win = r.usize(nw); arrivals.push(Arrival { win, s: node(&mut r), p: r.pick(&locals).to_string(), o: node(&mut r), back: r.below(dt) }); }
+            steps.push(SdsStep { dt, arrivals });
+        }
+        SdsCase { hash_seed: Rng::sub(seed, "hash").next(), windows, static_iri, statics, outs, rules, steps, pool: *cfg.pick(&[1, 2, 4, 8, 16]), rayon_seed: Rng::sub(seed, "rayon").next() }
+    }
+    fn exec(&self, c: &SdsCase, ctx: &mut Ctx) -> Option<Violation> {
+        if c.windows.is_empty() || c.outs.is_empty() { return None; }
+        rayon::sim_configure(c.rayon_seed, c.pool);
+        let dict = Arc::new(RwLock::new(shared::dictionary::Dictionary::new()));
+        let helper = Reasoner { dictionary: dict.clone(), ..Reasoner::new() };
+        let rules: Vec<Rule> = c.rules.iter().filter(|r| dm::is_safe(r)).map(|r| to_rule(r, &helper)).collect();
+        let mrules: Vec<dm::Rule> = c.rules.iter().filter(|r| dm::is_safe(r)).cloned().collect();
+        let mut contents: Vec<BTreeMap<Fact, u64>> = vec![BTreeMap::new(); c.windows.len()];
+        let mut prev: SdsWithExpiry = HashMap::new();
+        let mut t = 0u64;
+        let mut iris: Vec<String> = c.windows.iter().map(|w| w.iri.clone()).collect(); iris.push(c.static_iri.clone()); iris.extend(c.outs.iter().cloned());
+        let mut prev_ref: BTreeMap<Fact, u64> = BTreeMap::new();
+        for (si, st) in c.steps.iter().enumerate() {
+            t += st.dt.max(1);
+            for a in &st.arrivals {
+                let w = a.win % c.windows.len(); let et = t - a.back.min(st.dt.max(1) - 1);
+                let key = (a.s.clone(), a.p.clone(), a.o.clone());
+                if let Some(old) = contents[w].get(&key) { if *old + c.windows[w].alpha > t { ctx.hit("probe.rearrival_renews_alive_triple"); } }
+                let e = contents[w].entry(key).or_insert(0); if et > *e { *e = et; }
+            }
+            for (w, cw) in contents.iter_mut().enumerate() { let alpha = c.windows[w].alpha; cw.retain(|_, e| *e + alpha > t); }
+            let mut sds = Sds::new();
+            for (w, wd) in c.windows.iter().enumerate() { sds.windows.insert(wd.iri.clone(), WindowData { alpha: wd.alpha, triples: contents[w].iter().map(|((s, p, o), e)| WindowedTriple { subject: s.clone(), predicate: p.clone(), object: o.clone(), event_time: *e }).collect() }); }
+            if !c.statics.is_empty() { sds.static_graphs.insert(c.static_iri.clone(), c.statics.clone()); }
+            for o in &c.outs { sds.output_iris.insert(o.clone()); }
+            let inc = incremental_sds_plus(&rules, &sds, &prev, &dict, t);
+            // reference: from-scratch least model with the expiry lattice over the alive annotated facts
+            let mut base: BTreeMap<Fact, u64> = BTreeMap::new();
+            for (w, wd) in c.windows.iter().enumerate() { for ((s, p, o), e) in &contents[w] { base.insert((s.clone(), format!("{}{}", wd.iri, p), o.clone()), e + wd.alpha); } }
+            for (s, p, o) in &c.statics { base.insert((s.clone(), format!("{}{}", c.static_iri, p), o.clone()), u64::MAX); }
+            let refm = dm::least_model_expiry(&base, &mrules);
+            let d = dict.read().unwrap();
+            let mut got: BTreeMap<Fact, (u64, String)> = BTreeMap::new();
+            for (comp, m) in &inc { for (tr, e) in m { got.insert((d.decode(tr.subject).unwrap_or("?").to_string(), d.decode(tr.predicate).unwrap_or("?").to_string(), d.decode(tr.object).unwrap_or("?").to_string()), (*e, comp.clone())); } }
+            drop(d);
+            ev!(ctx.log, "step {} t={} alive={} ref={} inc={}", si, t, base.len(), refm.len(), got.len());
+            ctx.state(kolibrie_verif_rt::log::fnv(&format!("{:?}", refm)));
+            let gk: BTreeSet<&Fact> = got.keys().collect(); let rk: BTreeSet<&Fact> = refm.keys().collect();
+            if gk != rk {
+                let missing: Vec<_> = rk.difference(&gk).take(3).collect(); let extra: Vec<_> = gk.difference(&rk).take(3).collect();
+                rayon::sim_reset();
+                return Some(Violation::new(if !missing.is_empty() { "incremental-fact-missing" } else { "incremental-fact-extra" }, format!("step {} (t={}): incremental materialisation has {} facts, from-scratch reasoning over the alive facts yields {}; missing {:?}, extra {:?}", si, t, got.len(), refm.len(), missing, extra)));
+            }
+            for (f, e) in &refm {
+                let (ge, comp) = &got[f];
+                if ge != e { rayon::sim_reset(); return Some(Violation::new("expiry-wrong", format!("step {} (t={}): fact {:?} kept with expiry {} but the latest time until which some derivation stays fully supported is {}", si, t, f, ge, e))); }
+                if Some(comp) != longest_prefix(&f.1, &iris) { rayon::sim_reset(); return Some(Violation::new("wrong-component", format!("step {} (t={}): fact {:?} listed under component {} ", si, t, f, comp))); }
+            }
+            // naive recomputation must agree on the fact sets (per component, stripped predicates)
+            let nv = naive_sds_plus(&rules, &sds, &dict, t);
+            let d = dict.read().unwrap();
+            let mut nset: BTreeSet<(String, String, String, String)> = BTreeSet::new();
+            for (comp, v) in &nv { for tr in v { nset.insert((comp.clone(), d.decode(tr.subject).unwrap_or("?").to_string(), d.decode(tr.predicate).unwrap_or("?").to_string(), d.decode(tr.object).unwrap_or("?").to_string())); } }
+            drop(d);
+            let rset: BTreeSet<(String, String, String, String)> = refm.keys().filter_map(|f| longest_prefix(&f.1, &iris).map(|c| (c.clone(), f.0.clone(), f.1[c.len()..].to_string(), f.2.clone()))).collect();
+            if nset != rset { rayon::sim_reset(); return Some(Violation::new("naive-differs", format!("step {} (t={}): naive_sds_plus yields {} facts, reference {}; e.g. {:?} / {:?}", si, t, nset.len(), rset.len(), nset.difference(&rset).next(), rset.difference(&nset).next()))); }
+            // probes
+            for (f, e) in &refm { if let Some(pe) = prev_ref.get(f) { if !base.contains_key(f) && e > pe { ctx.hit("probe.renewal_raised_derived_expiry"); } } }
+            if prev_ref.keys().any(|f| !base.contains_key(f) && !refm.contains_key(f)) && !prev_ref.is_empty() { ctx.hit("probe.derived_fact_lost_support"); }
+            if !prev_ref.is_empty() && base.values().all(|e| *e == u64::MAX) { ctx.hit("probe.evaluation_after_total_expiry"); }
+            prev_ref = refm;
+            prev = inc;
+        }
+        let st = rayon::sim_stats(); ctx.count("fault.pool_split_into_several_jobs", st.split_consumes);
+        rayon::sim_reset();
+        ctx.sim_ns += t * 1_000_000_000;
+        ctx.count("evaluation_steps", c.steps.len() as u64);
+        if prev_ref.len() > 0 && c.steps.len() >= 3 { ctx.nontrivial(kolibrie_verif_rt::log::fnv(&format!("{:?}{:?}{:?}", c.rules, c.steps, c.windows))); }
+        None
+    }
+    fn shrink(&self, c: &SdsCase) -> Vec<SdsCase> {
+        let mut out = vec![];
+        for s in shrink_vec(&c.steps) { if !s.is_empty() { out.push(SdsCase { steps: s, ..c.clone() }); } }
+        for rs in shrink_vec(&c.rules) { if !rs.is_empty() { out.push(SdsCase { rules: rs, ..c.clone() }); } }
+        for (i, st) in c.steps.iter().enumerate() { for a in shrink_vec(&st.arrivals) { let mut s = c.steps.clone(); s[i].arrivals = a; out.push(SdsCase { steps: s, ..c.clone() }); } }
+        for s in shrink_vec(&c.statics) { out.push(SdsCase { statics: s, ..c.clone() }); }
+        for (i, r) in c.rules.iter().enumerate() { if r.prem.len() > 1 { for d in 0..r.prem.len() { let mut nr = r.clone(); nr.prem.remove(d); if dm::is_safe(&nr) { let mut rs = c.rules.clone(); rs[i] = nr; out.push(SdsCase { rules: rs, ..c.clone() }); } } } }
+        if c.pool != 1 { out.push(SdsCase { pool: 1, rayon_seed: 0, ..c.clone() }); }
+        if c.hash_seed != 0 { out.push(SdsCase { hash_seed: 0, ..c.clone() }); }
+        out
+    }
+    fn rule(&self) -> String { "A case is one window-consistent stream history over 2-3 simulated windows (+ optional static graph) with an increasing sequence of evaluation times chosen by the simulated clock (dense, sparse, jumping past every expiry); at every evaluation incremental_sds_plus is fed the carried state and compared, per component, fact by fact and expiry by expiry, with a from-scratch reference least model over the alive facts with the expiry lattice; naive_sds_plus must give the same fact sets. Non-trivial = at least 3 evaluation steps and a non-empty final materialisation; distinct = hash of (rules, steps, windows).".into() }
+    fn assumptions(&self) -> Vec<String> { vec!["window contents are built as the quantifier states: a triple is listed once with its latest arrival and stays listed until event_time + alpha <= t".into(), "rule conclusions lie in an output component; component IRIs may be nested but local names contain no '/'".into()] }
+    fn real_vs_stub(&self) -> serde_json::Value { serde_json::json!({"real": ["datalog::reasoning::materialisation::cross_window_incremental::incremental_sds_plus", "cross_window_naive::naive_sds_plus", "cross_window_sds::translate_sds_to_datalog", "provenance_semi_naive (ExpirationProvenance)"], "simulated": ["stream arrival times and evaluation clock", "window contents (simulated windows; the real CSPARQLWindow is exercised by C09-C11)", "rayon (sim-rayon)", "hash keys"], "not_run": ["RSPEngine cross-window wiring (build_cross_window_sds)"]}) }
+}
